@@ -115,6 +115,9 @@ def cmp_atom(op, a, b):
             return ('cmp', 'Le', sa, repr(ib - 1))
     if op in ('Eq', 'Ne') and sb < sa:
         sa, sb = sb, sa
+    if op == 'Ne' and sa == '0' and sb.startswith('len('):
+        # a length is unsigned: len(X) != 0 is 1 <= len(X) (the form `!X.is_empty()` has)
+        return ('cmp', 'Le', '1', sb)
     return ('cmp', op, sa, sb)
 
 
